@@ -66,6 +66,29 @@ def boundaries(trace):
     return [i for i, e in enumerate(trace) if e["c"] in RELEVANT_NEXT and not (e["c"] == "fcntl" and e.get("cmd") != 1030)]
 
 
+def created_dir_attacks(bj, b):
+    """mkdir_all: right after the k-th successful mkdirat (and before the library opens what it made) the attacker exchanges the
+    new directory with a link that leads out of the root.  The names come from the baseline run of the same job."""
+    if bj["op"]["k"] != "mkdir_all" or "trace" not in b or b.get("snap_before") is None:
+        return []
+    before = {unhex(e[0]) for e in b["snap_before"]}
+    added = sorted((unhex(e[0]) for e in (b.get("snap_after") or []) if unhex(e[0]) not in before and unhex(e[0]).startswith(b"root/")),
+                   key=lambda p_: p_.count(b"/"))
+    made = [i for i, e in enumerate(b["trace"]) if e["c"] == "mkdirat" and e["ret"] == 0]
+    if len(made) != len(added):
+        return []
+    ks = boundaries(b["trace"])
+    out = []
+    for i, p_ in zip(made, added):
+        nxt = next((k for k in ks if k > i), None)
+        if nxt is None:
+            continue
+        for link in ("evil_dir", "evil_up"):
+            out.append((nxt, "exchange the directory just created (%s) with the link %s" % (p_.decode("latin1"), link),
+                        [["exchange", p_.hex(), H("root/" + link)]]))
+    return out
+
+
 def make_jobs(base_jobs, baselines, rng, thorough, max_per_job=None, pairs=False):
     """For every base job: one run per (boundary, action); thorough adds flip-flop pairs (do at k1, undo at k2)."""
     out = []
@@ -92,6 +115,14 @@ def make_jobs(base_jobs, baselines, rng, thorough, max_per_job=None, pairs=False
             j["base"] = bj["id"]
             j["policy"] = {"attack": [{"at": k, "ops": ACTIONS[ai][1]}]}
             j["attack_desc"] = {"at": k, "action": ACTIONS[ai][0], "before_call": b["trace"][k]["c"]}
+            out.append(j)
+        for k, name, ops in created_dir_attacks(bj, b):
+            jid += 1
+            j = dict(bj)
+            j["id"] = jid
+            j["base"] = bj["id"]
+            j["policy"] = {"attack": [{"at": k, "ops": ops}]}
+            j["attack_desc"] = {"at": k, "action": name, "before_call": b["trace"][k]["c"]}
             out.append(j)
         if pairs:
             for _ in range(min(len(ks) * 2, 200)):
